@@ -43,6 +43,8 @@ pub type Context = blake2s::ContextDyn;
 pub struct Blake2s {
     ctx: blake2s::ContextDyn,
     computed: bool, // whether the final digest has been computed
+    key: [u8; 32],  // key of the context, kept to be able to reset a keyed context
+    keylen: usize,
 }
 
 impl Blake2s {
@@ -54,6 +56,8 @@ impl Blake2s {
         Self {
             ctx,
             computed: false,
+            key: [0; 32],
+            keylen: 0,
         }
     }
 
@@ -62,9 +66,13 @@ impl Blake2s {
     pub fn new_keyed(outlen: usize, key: &[u8]) -> Self {
         assert!(key.len() <= 64);
         let ctx = blake2s::ContextDyn::new_keyed(outlen, key);
+        let mut saved = [0; 32];
+        saved[..key.len()].copy_from_slice(key);
         Self {
             ctx,
             computed: false,
+            key: saved,
+            keylen: key.len(),
         }
     }
 
@@ -83,12 +91,23 @@ impl Blake2s {
     pub fn reset(&mut self) {
         self.ctx.reset();
         self.computed = false;
+        self.key = [0; 32];
+        self.keylen = 0;
     }
 
     /// Reset the blake2 context with a key
     pub fn reset_with_key(&mut self, key: &[u8]) {
         self.ctx.reset_with_key(key);
         self.computed = false;
+        self.key = [0; 32];
+        self.key[..key.len()].copy_from_slice(key);
+        self.keylen = key.len();
+    }
+
+    // reset the context keeping the key it was created (or last reset) with
+    fn reset_same_key(&mut self) {
+        let key = self.key;
+        self.reset_with_key(&key[..self.keylen]);
     }
 
     /// Compute the blake2 function as one call
@@ -109,7 +128,7 @@ impl Digest for Blake2s {
         self.update(msg);
     }
     fn reset(&mut self) {
-        Blake2s::reset(self);
+        self.reset_same_key();
     }
     fn result(&mut self, out: &mut [u8]) {
         self.finalize(out);
@@ -129,7 +148,7 @@ impl Mac for Blake2s {
     }
 
     fn reset(&mut self) {
-        Blake2s::reset(self);
+        self.reset_same_key();
     }
 
     fn result(&mut self) -> MacResult {
